@@ -272,7 +272,38 @@ func (w *worker) emit(id, obs string) {
 // After slowLimit timeouts with the same value in the same position, the remaining cases of
 // this group with that value there are not evaluated (`resource:skipped`, counted as such):
 // quadratic jq code on the 1 MiB string would otherwise cost one timeout per combination.
+// runByteColor: the pseudo function `@bytecolor/1` (input: a byte_colors array, argument: a byte)
+// calls decoratorFromOptions directly, under the same watchdog as every other case
+func (w *worker) runByteColor(cs []wcase) {
+	for _, c := range cs {
+		w.cur.Store(c.id)
+		w.wd.arm(func() {}, w.timeout)
+		obs := func() (obs string) {
+			defer func() {
+				if r := recover(); r != nil {
+					obs = "panic:" + topFrame(string(debug.Stack()))
+				}
+			}()
+			b, ok := c.args[0].(int)
+			if !ok {
+				return "err"
+			}
+			s, err := interp.VerifC13ByteColor(cloneVal(c.in), b)
+			if err != nil {
+				return "err"
+			}
+			return "ok 1 " + tokOf(s)
+		}()
+		w.wd.disarm()
+		w.emit(c.id, obs)
+	}
+}
+
 func (w *worker) runGroup(cs []wcase) {
+	if cs[0].name == "@bytecolor" {
+		w.runByteColor(cs)
+		return
+	}
 	expr := callExpr(cs[0].name, cs[0].arity)
 	fnKey := cs[0].name + "/" + strconv.Itoa(cs[0].arity)
 	seen, timed := map[string]int{}, map[string]int{}
